@@ -16,7 +16,9 @@ EXPLANATION = (
     "the statement: stdout reaches the file `out` iff set and the mail body iff mail-out, likewise stderr; nothing else receives a stream; "
     "the temporary file is removed iff it is the mail file. R13.2 privilege and set-up order in echsx(): setgid before setuid, both tested "
     "with the failure edge bypassing the spawn; umask/chdir/opens precede the single posix_spawn; run_task once, on prep_task's success edge. "
-    "R13.3 journal lock pairing (lock .. flush .. unlock on every exit), clean-up after prep_task, exit status written only by the child callback.")
+    "R13.3 journal lock pairing (lock .. flush .. unlock on every exit), clean-up after prep_task, exit status written only by the child callback. R13.4: the child watcher whose callback ends the run is registered for "
+    "termination only (trace = 0). R13.5: the offset at which a chunk is copied from the mail file (shared by the stdout and stderr "
+    "watchers) to an output file derives from a position query on that file.")
 NOT_DECIDED = ("that bytes actually arrive (pipe pumping loops, splice/sendfile, sizes beyond pipe capacity), exit-status plumbing through libev, "
                "the mail transport; the behaviour itself")
 TRUSTED = ["clang 14 parser/CFG builder", "echse-facts extractor", "python rule engines in /verif/sa", "open(2)/pipe(2)/mkstemp(3) succeed in the walked configurations"]
